@@ -1,8 +1,8 @@
-(* CorePhase2AcctKinv.v -- CoreInv's invariant gives the aliasing facts AL: the timer
+(* CorePhase2K1Inv.v -- CoreInv's invariant gives the aliasing facts AL: the timer
    descriptor is none of the descriptors the actions work on. *)
 From Coq Require Import List ZArith Bool Lia.
 From Ivv Require Import Core.Kernel Core.CoreTypes Core.CoreFd Core.CoreModel Core.CoreSpec
-  Core.CoreInvBase Core.CoreInvDefs Core.CorePhase2AcctKt Core.CorePhase2AcctKfd Core.CorePhase2AcctKact.
+  Core.CoreInvBase Core.CoreInvDefs Core.CorePhase2K1Base Core.CorePhase2K1Fd Core.CorePhase2K1Act.
 Import ListNotations.
 Local Open Scope Z_scope.
 
